@@ -235,10 +235,15 @@ class Module:
             if mg:
                 s.globals[mg.group(1)] = mg.group(2)
             if l.startswith("define"):
-                m = re.search(r"@([\w.$]+)\((.*)\)[^()]*\{$", l)
+                m = re.search(r"@([\w.$]+)\(", l)
+                depth, j = 1, m.end()
+                while depth:
+                    depth += l[j] == "("
+                    depth -= l[j] == ")"
+                    j += 1
                 f = Func()
                 f.name, f.params = m.group(1), []
-                for a in split_top(m.group(2)):
+                for a in split_top(l[m.end():j - 1]):
                     a = _ATTR.sub("", a)
                     t, rest = s.tp.parse(a)
                     f.params.append((t, rest.split()[-1]))
@@ -440,6 +445,7 @@ class Interp:
         s.trail, s.pos, s.new_alts = list(trail), 0, []
         s.freed = set()
         s.calls = {}
+        s.stubs = getattr(s, "stubs", {})      # callee name -> python function(I, args): compositional contracts
 
     # ----- symbols / emission
     def fresh(s, p, integer=False):
@@ -732,7 +738,7 @@ class Interp:
     def step(s, f, env, ins, depth):
         ins = re.sub(r",\s*!\w+ !\d+", "", ins)
         ins = re.sub(r",\s*align \d+", "", ins)
-        ins = re.sub(r"\s+#\d+$", "", ins)
+        ins = re.sub(r"\s+#\d+(?=\s|$)", "", ins)
         m = re.match(r"(%[\w.$-]+) = (.*)$", ins)
         dst = None
         if m:
@@ -1063,6 +1069,8 @@ class Interp:
             return 0
         if fn in ("exit", "abort", "_ZSt20__throw_length_errorPKc", "_ZSt17__throw_bad_allocv", "__cxa_throw"):
             raise Infeasible()       # error exits end the path (stated cut)
+        if fn in s.stubs:
+            return s.stubs[fn](s, a)
         if fn in s.mod.funcs:
             if depth > 50:
                 raise EncoderError("call depth")
